@@ -1615,12 +1615,32 @@ pub fn seq_scan(check: &dyn Check, tier: Tier, limit: u64, max_secs: u64) {
 
 fn seq_scan_child(check: &dyn Check, tier: Tier, limit: u64) -> Option<(u64, Violation)> {
     let exe = std::env::current_exe().ok()?;
-    let out = std::process::Command::new(exe)
+    // (bounded: a run that never returns must not hang the report)
+    let mut child = std::process::Command::new(exe)
         .args(["seqscan", check.id(), tier.name(), &limit.to_string()])
         .env("VERIF_NO_SUPERVISOR", "1")
-        .output()
+        .stdout(std::process::Stdio::piped())
+        .stderr(std::process::Stdio::null())
+        .spawn()
         .ok()?;
-    let text = String::from_utf8_lossy(&out.stdout);
+    let started = Instant::now();
+    loop {
+        match child.try_wait() {
+            Ok(Some(_)) => break,
+            Ok(None) if started.elapsed().as_secs() > 90 => {
+                let _ = child.kill();
+                let _ = child.wait();
+                return None;
+            }
+            Ok(None) => std::thread::sleep(std::time::Duration::from_millis(50)),
+            Err(_) => return None,
+        }
+    }
+    let mut text = String::new();
+    {
+        use std::io::Read;
+        child.stdout.take()?.read_to_string(&mut text).ok()?;
+    }
     let line = text.lines().find(|l| l.starts_with('{'))?;
     let v: Value = serde_json::from_str(line).ok()?;
     let g = |k: &str| v.get(k).and_then(|x| x.as_str()).unwrap_or("").to_string();
